@@ -293,6 +293,64 @@ def _unroll_records(tree):
                     i += len(stores) + len(keep) - 2
 
 
+def _loops_to_comprehensions(stmts):
+    """`L = []` immediately followed by `for v in IT: L.append(E)` (optionally `if c: L.append(E)`) is
+    `L = [E for v in IT (if c)]` when neither E, c nor IT mention L (same elements, same order, same evaluation order)."""
+    out = []
+    i = 0
+    while i < len(stmts):
+        s = stmts[i]
+        nxt = stmts[i + 1] if i + 1 < len(stmts) else None
+        done = False
+        if (isinstance(s, ast.Assign) and len(s.targets) == 1 and isinstance(s.targets[0], ast.Name) and isinstance(s.value, ast.List) and not s.value.elts
+                and isinstance(nxt, ast.For) and not nxt.orelse and len(nxt.body) == 1):
+            L = s.targets[0].id
+            b = nxt.body[0]
+            cond = None
+            if isinstance(b, ast.If) and not b.orelse and len(b.body) == 1:
+                cond, b = b.test, b.body[0]
+            if (isinstance(b, ast.Expr) and isinstance(b.value, ast.Call) and isinstance(b.value.func, ast.Attribute) and b.value.func.attr == "append" and isinstance(b.value.func.value, ast.Name)
+                    and b.value.func.value.id == L and len(b.value.args) == 1 and not b.value.keywords):
+                E = b.value.args[0]
+                mention = any(isinstance(x, ast.Name) and x.id == L for e_ in [E, nxt.iter] + ([cond] if cond is not None else []) for x in ast.walk(e_))
+                impure = any(isinstance(x, (ast.Yield, ast.YieldFrom, ast.Await, ast.NamedExpr)) for e_ in [E, nxt.iter] + ([cond] if cond is not None else []) for x in ast.walk(e_))
+                tnames = {x.id for x in ast.walk(nxt.target) if isinstance(x, ast.Name)}
+                leaks = any(isinstance(x, ast.Name) and x.id in tnames and isinstance(x.ctx, ast.Load) for r_ in stmts[i + 2:] for x in ast.walk(r_))
+                if not mention and not impure and not leaks:
+                    comp = ast.ListComp(elt=E, generators=[ast.comprehension(target=nxt.target, iter=nxt.iter, ifs=[cond] if cond is not None else [], is_async=0)])
+                    out.append(ast.fix_missing_locations(ast.copy_location(ast.Assign(targets=s.targets, value=ast.copy_location(comp, nxt)), s)))
+                    i += 2
+                    done = True
+        if not done:
+            out.append(s)
+            i += 1
+    return out
+
+
+def _inline_exception_tuples(tree):
+    """`except NAME:` where NAME is a module-level constant bound exactly once to a tuple of exception classes reads as the
+    tuple itself."""
+    import copy as _copy
+
+    consts = {}
+    for s in tree.body:
+        if isinstance(s, ast.Assign) and len(s.targets) == 1 and isinstance(s.targets[0], ast.Name) and isinstance(s.value, ast.Tuple) and s.value.elts and all(isinstance(e, (ast.Name, ast.Attribute)) for e in s.value.elts):
+            consts[s.targets[0].id] = s.value
+    if not consts:
+        return
+    stores = {}
+    for n in ast.walk(tree):
+        if isinstance(n, ast.Name) and isinstance(n.ctx, (ast.Store, ast.Del)) and n.id in consts:
+            stores[n.id] = stores.get(n.id, 0) + 1
+        elif isinstance(n, (ast.Global, ast.Nonlocal)):
+            for g in n.names:
+                stores[g] = stores.get(g, 0) + 2
+    for n in ast.walk(tree):
+        if isinstance(n, ast.ExceptHandler) and isinstance(n.type, ast.Name) and n.type.id in consts and stores.get(n.type.id, 0) == 1:
+            n.type = ast.copy_location(_copy.deepcopy(consts[n.type.id]), n.type)
+    ast.fix_missing_locations(tree)
+
+
 def _normalise_syntax(tree):
     """Statement-level normal forms applied to every module before anything is indexed, so that spelling variants of
     one program are one program to every rule (each rewrite preserves behaviour):
@@ -308,6 +366,7 @@ def _normalise_syntax(tree):
     import copy as _copy
 
     _unroll_records(tree)
+    _inline_exception_tuples(tree)
     # unread constant locals
     for fn in [n for n in ast.walk(tree) if isinstance(n, (ast.FunctionDef, ast.AsyncFunctionDef))]:
         loads, declared, dyn = set(), set(), False
@@ -456,7 +515,7 @@ def _normalise_syntax(tree):
                 c.body = block(c.body)
             in_fn = True
             out.extend(one(st))
-        return out
+        return _loops_to_comprehensions(out)
 
     tree.body = block(tree.body)
     # guard clauses: `if c: ...; return a` + REST  ->  `if c: ...; return a  else: REST` (one tree shape for both spellings)
@@ -1293,6 +1352,90 @@ def _inline_index_properties(trees):
         ast.fix_missing_locations(t)
 
 
+def _inline_local_closures(trees):
+    """A nested function whose body is a single `return <expr>` and that is only ever called by name inside the enclosing
+    function (at most 6 calls, call-free arguments) is substituted at its calls, when every free variable of the
+    expression is bound at most once in the enclosing function (so it has the same value at the definition and at every
+    call)."""
+    import copy as _copy
+
+    for t in trees:
+        for F in [n for n in ast.walk(t) if isinstance(n, (ast.FunctionDef, ast.AsyncFunctionDef))]:
+            for h in [s for s in F.body if isinstance(s, ast.FunctionDef)]:
+                if h.decorator_list or h.args.vararg or h.args.kwarg or h.args.posonlyargs or h.args.kwonlyargs:
+                    continue
+                body = [s for s in h.body if not (isinstance(s, ast.Expr) and isinstance(s.value, ast.Constant) and isinstance(s.value.value, str))]
+                if len(body) != 1 or not isinstance(body[0], ast.Return) or body[0].value is None:
+                    continue
+                expr = body[0].value
+                if any(isinstance(x, (ast.Lambda, ast.ListComp, ast.SetComp, ast.DictComp, ast.GeneratorExp, ast.Yield, ast.YieldFrom, ast.Await, ast.NamedExpr)) for x in ast.walk(expr)):
+                    continue
+                params = [a.arg for a in h.args.args]
+                outside = [n for s in F.body if s is not h for n in ast.walk(s)]
+                refs = [n for n in outside if isinstance(n, ast.Name) and n.id == h.name]
+                sites = [n for n in outside if isinstance(n, ast.Call) and isinstance(n.func, ast.Name) and n.func.id == h.name]
+                if not sites or len(sites) > 6 or len(refs) != len(sites) or any(isinstance(n, (ast.Global, ast.Nonlocal)) for n in ast.walk(h)):
+                    continue
+                free = {n.id for n in ast.walk(expr) if isinstance(n, ast.Name) and n.id not in params}
+                fparams = {a.arg for a in F.args.posonlyargs + F.args.args + F.args.kwonlyargs} | ({F.args.vararg.arg} if F.args.vararg else set()) | ({F.args.kwarg.arg} if F.args.kwarg else set())
+                bad = False
+                for v in free:
+                    nb = sum(1 for n in outside if isinstance(n, ast.Name) and n.id == v and isinstance(n.ctx, (ast.Store, ast.Del))) + sum(1 for n in outside if isinstance(n, ast.ExceptHandler) and n.name == v)
+                    if nb > (0 if v in fparams else 1):
+                        bad = True
+                if bad:
+                    continue
+                binds, ok = [], True
+                for s in sites:
+                    if any(k.arg is None for k in s.keywords) or any(isinstance(a, ast.Starred) for a in s.args) or len(s.args) > len(params):
+                        ok = False
+                        break
+                    b = dict(zip(params, s.args))
+                    for k in s.keywords:
+                        if k.arg not in params or k.arg in b:
+                            ok = False
+                        b[k.arg] = k.value
+                    dflt = dict(zip(params[len(params) - len(h.args.defaults):], h.args.defaults))
+                    for p_ in params:
+                        if p_ not in b:
+                            if p_ in dflt:
+                                b[p_] = dflt[p_]
+                            else:
+                                ok = False
+                    if not ok or any(isinstance(x, (ast.Call, ast.Await, ast.Yield, ast.NamedExpr)) for v in b.values() for x in ast.walk(v)):
+                        ok = False
+                        break
+                    binds.append(b)
+                if not ok:
+                    continue
+                parent = {}
+                for n in ast.walk(F):
+                    for fld, v in ast.iter_fields(n):
+                        if isinstance(v, list):
+                            for i, x in enumerate(v):
+                                if isinstance(x, ast.AST):
+                                    parent[id(x)] = (n, fld, i)
+                        elif isinstance(v, ast.AST):
+                            parent[id(v)] = (n, fld, None)
+                for s, b in zip(sites, binds):
+                    class R(ast.NodeTransformer):
+                        def visit_Name(self, n_):
+                            if n_.id in b and isinstance(n_.ctx, ast.Load):
+                                return ast.copy_location(_copy.deepcopy(b[n_.id]), n_)
+                            return n_
+
+                    new = ast.copy_location(R().visit(_copy.deepcopy(expr)), s)
+                    par, fld, i = parent[id(s)]
+                    if i is None:
+                        setattr(par, fld, new)
+                    else:
+                        getattr(par, fld)[i] = new
+                F.body.remove(h)
+                if not F.body:
+                    F.body.append(ast.Pass())
+        ast.fix_missing_locations(t)
+
+
 def _flatten_mixins(trees):
     """A private helper base class (name starts with `_`, no rule names it, no bases of its own beyond object / ABC,
     no `__init__`, used as a base by exactly one class of the package and referenced nowhere else) is merged into that
@@ -1413,6 +1556,7 @@ class Program:
             _inline_module_helpers([t[4] for t in parsed])
             _inline_expression_helpers([t[4] for t in parsed])
             _inline_index_properties([t[4] for t in parsed])
+            _inline_local_closures([t[4] for t in parsed])
             _inline_helpers([t[4] for t in parsed])
         for modname, path, rel, source, tree, is_pkg in parsed:
             _normalise_syntax(tree)
